@@ -670,4 +670,35 @@ def carveJournal (sig : CarveSig) (pageSize : Nat) (fh : FileH) : Py (List Journ
   if 512 + (4 + pageSize + 4) ≤ fh.size then journalLoop sig pageSize fh (fh.size / (pageSize + 8) + 2) 512
   else .ok []
 
+/-- `journalLoop` with the number of page records visited (record headers whose read was
+started: one per iteration, one more for a trailing partial record): a counter that survives
+exceptions.  Erasing it gives `journalLoop` (Proofs/Cost.lean `journalLoopCounted_snd`). -/
+def journalLoopCounted (sig : CarveSig) (pageSize : Nat) (fh : FileH) : Nat → Nat → Nat × Py (List JournalCommit)
+  | 0, _ => (0, .error .outsideModel)
+  | fuel+1, offset =>
+    let recordSize := 4 + pageSize + 4
+    let first : Py (Option JournalCommit) := do
+      let pn ← (do let b ← fh.read offset 4; b.u32 0)
+      let content ← fh.read (offset + 4) pageSize
+      let _ ← fh.read (offset + 4 + pageSize) 4
+      carveJournalPage sig pageSize pn (offset + 4) content
+    match first with
+    | .error e => (1, .error e)
+    | .ok c1 =>
+      let offset' := offset + recordSize
+      if offset' + recordSize ≥ fh.size then
+        if offset' + 4 ≥ fh.size then (1, .ok c1.toList)
+        else (2, do
+          let pn2 ← (do let b ← fh.read offset' 4; b.u32 0)
+          let content2 ← fh.read (offset' + 4) (fh.size - 4 - offset')
+          let c2 ← carveJournalPage sig pageSize pn2 (offset' + 4) content2
+          pure (c1.toList ++ c2.toList))
+      else ((journalLoopCounted sig pageSize fh fuel offset').1 + 1, do
+        let rest ← (journalLoopCounted sig pageSize fh fuel offset').2
+        pure (c1.toList ++ rest))
+
+def carveJournalCounted (sig : CarveSig) (pageSize : Nat) (fh : FileH) : Nat × Py (List JournalCommit) :=
+  if 512 + (4 + pageSize + 4) ≤ fh.size then journalLoopCounted sig pageSize fh (fh.size / (pageSize + 8) + 2) 512
+  else (0, .ok [])
+
 end SqliteDissect.Model.Carve
